@@ -14,7 +14,7 @@
    off), where silent wrap-around would otherwise turn into out-of-bounds reads.
 2. Release run of C10's own workload (both tiers).  The workload of harness/src/c10.rs (calls
    expected to panic + use of the survivor, shapes/sizes whose element count overflows) is built
-   as the small binary `emlv10` in the *release* profile (≈20 s cold) and its answers are compared
+   as the binary `emlv-C10` in the *release* profile (≈20 s cold) and its answers are compared
    with the model's answers of the correspondence run: two defects of the element-count
    validation (#8 for tensors, L-12 for matrices) accept a wrapped product only there.
 """
@@ -105,7 +105,7 @@ def hook_violation(pid, seg, label, what):
     }
 
 
-def sweep(ctx, bin_path, label, wd, violations, per_prop, samples):
+def sweep(ctx, release, label, wd, violations, per_prop, samples):
     total_ops = total_checked = programs = 0
     # every claimed line-protocol property, plus C18's own float / formatting workload (protocol none)
     pids = _sweep.line_protocol_properties(ctx["root"], exclude={"C18"}) + ["C18"]
@@ -114,7 +114,8 @@ def sweep(ctx, bin_path, label, wd, violations, per_prop, samples):
         if not ops:
             continue
         n_before = len(violations)
-        ran, checked, failed, reported = run_monitored(ctx, pid, ops, wd, label, bin_path, violations)
+        ran, checked, failed, reported = run_monitored(ctx, pid, ops, wd, label, ctx["bin_for"](pid, release),
+                                                       violations)
         total_ops += ran
         DISTINCT[0] += len(set(ops))
         programs += sum(1 for l in ops if l.startswith("@"))
@@ -129,27 +130,6 @@ def sweep(ctx, bin_path, label, wd, violations, per_prop, samples):
     return total_ops, total_checked, programs
 
 
-def build_emlv10(ctx, release=True):
-    """`cargo build --release --bin emlv10` in the harness package (Cargo.toml was generated by
-    verif.build_harness for the checkout under test)."""
-    cmd = ["cargo", "build", "--offline", "--quiet", "--bin", "emlv10", "--target-dir", ctx["harness_target_dir"]]
-    if release:
-        cmd.append("--release")
-    env = dict(ctx["env"])
-    env["RUSTFLAGS"] = env.get("RUSTFLAGS", "") + " -Awarnings"
-    import fcntl
-    lock_path = os.path.join(ctx["root"], "work", "cargo.lock")
-    os.makedirs(os.path.dirname(lock_path), exist_ok=True)
-    with open(lock_path, "w") as lf:
-        fcntl.flock(lf, fcntl.LOCK_EX)
-        p = subprocess.run(cmd, cwd=os.path.join(ctx["root"], "harness"), stdout=subprocess.PIPE,
-                           stderr=subprocess.PIPE, env=env)
-        fcntl.flock(lf, fcntl.LOCK_UN)
-    if p.returncode != 0:
-        raise ctx["MachineryError"]("release build of emlv10 failed:\n" + p.stderr.decode()[-4000:])
-    return os.path.join(ctx["harness_target_dir"], "release" if release else "debug", "emlv10")
-
-
 def own_workload_release(ctx, wd, violations, per_prop, samples):
     """C10's own operations (those of the correspondence run) through the release build, against
     the model's answers."""
@@ -157,7 +137,7 @@ def own_workload_release(ctx, wd, violations, per_prop, samples):
     if not corr or "ops_list" not in corr:
         return 0, 0
     ops, model = corr["ops_list"], corr["model"]
-    bin10 = build_emlv10(ctx, release=True)
+    bin10 = ctx["bin_for"]("C10", True)
     os.makedirs(wd, exist_ok=True)
     ops_path = os.path.join(wd, "C10.own.ops")
     with open(ops_path, "w") as f:
@@ -171,7 +151,7 @@ def own_workload_release(ctx, wd, violations, per_prop, samples):
         k = min(len(answers), len(ops) - 1)
         s = _sweep.segment_start(ops, k)
         v = hook_violation("C10", ops[s:k + 1], "release", f"process died (exit {rc2}): {err2[-300:]}")
-        v["binary"] = "emlv10"
+        v["binary"] = "emlv-C10"
         violations.append(v)
         return len(answers), hook[0] if hook else 0
     seen, n_bad = set(), 0
@@ -189,7 +169,7 @@ def own_workload_release(ctx, wd, violations, per_prop, samples):
             continue
         v = {
             "case": "C10: " + " ; ".join(ops[s:i + 1])[-600:], "property_workload": "C10", "kind": kind,
-            "ops": ops[s:i + 1], "build": "release", "binary": "emlv10",
+            "ops": ops[s:i + 1], "build": "release", "binary": "emlv-C10",
             "implementation_answer": a, "model_answer": m,
             "explanation": ("release build (overflow checks off): the implementation's answer differs from the "
                             "answer the property demands (the model's, before `##`)") if kind == "obs" else
@@ -277,13 +257,15 @@ def audit_view_module(ctx):
 def run(ctx):
     violations, samples, per_prop = [], [], {}
     DISTINCT[0] = 0
+    # all per-property binaries in one cargo invocation (parallel); bin_for() is then a no-op check
+    ctx["build_harness"]()
     wd = os.path.join(ctx["work"], "sweep")
     os.makedirs(wd, exist_ok=True)
     own_ops, own_checked = own_workload_release(ctx, wd, violations, per_prop, samples)
-    n_ops, n_checked, programs = sweep(ctx, ctx["bin"], "dev", wd, violations, per_prop, samples)
+    n_ops, n_checked, programs = sweep(ctx, False, "dev", wd, violations, per_prop, samples)
     if ctx["tier"] == "thorough":
-        rel = ctx["build_harness"](release=True)
-        o2, c2, p2 = sweep(ctx, rel, "release", wd, violations, per_prop, samples)
+        ctx["build_harness"](None, True)
+        o2, c2, p2 = sweep(ctx, True, "release", wd, violations, per_prop, samples)
         n_ops += o2
         n_checked += c2
         programs += p2
@@ -317,13 +299,7 @@ if __name__ == "__main__":
     sys.path.insert(0, root)
     import verif
     release = payload.get("build") == "release"
-    if payload.get("binary") == "emlv10":
-        verif.build_harness()  # generates Cargo.toml for the checkout under test
-        ctx = {"harness_target_dir": verif.harness_target_dir(), "env": verif.ENV, "root": root,
-               "MachineryError": verif.MachineryError}
-        b = build_emlv10(ctx, release=release)
-    else:
-        b = verif.build_harness(release=release)
+    b = verif.build_harness(payload["property_workload"], release)
     ops = "".join(l + "\n" for l in payload["ops"]).encode()
     e = dict(verif.ENV)
     e["EMLV_FLUSH"] = "1"
